@@ -70,3 +70,67 @@ pub fn consensus_cost(prog: &T, env: &T, max_cost: u64) -> Out {
 pub fn quote(v: T) -> T {
     T::p(T::a(&[1]), v)
 }
+
+/// A reusable consensus evaluation context: a set of environments is built once in an
+/// allocator, and every evaluation restores the allocator to that checkpoint afterwards.
+pub struct Ctx {
+    pub a: Allocator,
+    pub envs: Vec<NodePtr>,
+    cp: clvmr::allocator::Checkpoint,
+}
+
+pub enum NOut {
+    Val(NodePtr),
+    Err(String),
+    Limit,
+}
+
+impl Ctx {
+    pub fn new(envs: &[T]) -> Ctx {
+        let mut a = Allocator::new();
+        let envs: Vec<NodePtr> = envs.iter().map(|e| e.to_node(&mut a)).collect();
+        let cp = a.checkpoint();
+        Ctx { a, envs, cp }
+    }
+    pub fn reset(&mut self) {
+        self.a.restore_checkpoint(&self.cp);
+    }
+    pub fn run_node(&mut self, prog: NodePtr, env: NodePtr) -> NOut {
+        match consensus_node(&mut self.a, prog, env, MAX_COST) {
+            Ok(n) => NOut::Val(n),
+            Err(EvalErr::CostExceeded) | Err(EvalErr::OutOfMemory) | Err(EvalErr::TooManyPairs) | Err(EvalErr::TooManyAtoms) => NOut::Limit,
+            Err(e) => {
+                let s = format!("{}", e);
+                if s.contains("Stack Limit") {
+                    NOut::Limit
+                } else {
+                    NOut::Err(s)
+                }
+            }
+        }
+    }
+    pub fn node_eq(&self, x: NodePtr, y: NodePtr) -> bool {
+        let mut stack = vec![(x, y)];
+        while let Some((p, q)) = stack.pop() {
+            if p == q {
+                continue;
+            }
+            match (self.a.sexp(p), self.a.sexp(q)) {
+                (clvmr::allocator::SExp::Atom, clvmr::allocator::SExp::Atom) => {
+                    if self.a.atom(p).as_ref() != self.a.atom(q).as_ref() {
+                        return false;
+                    }
+                }
+                (clvmr::allocator::SExp::Pair(a1, b1), clvmr::allocator::SExp::Pair(a2, b2)) => {
+                    stack.push((a1, a2));
+                    stack.push((b1, b2));
+                }
+                _ => return false,
+            }
+        }
+        true
+    }
+    pub fn t(&self, n: NodePtr) -> T {
+        T::from_node(&self.a, n)
+    }
+}
